@@ -87,7 +87,18 @@ pub struct GWorld {
 }
 
 fn two() -> Identifier {
+    Identifier::numeric(7).unwrap()
+}
+
+/// stream 2, topic 4, groups 6 and 7: all different, so that a swapped pair of ids cannot go unnoticed
+fn sid() -> Identifier {
     Identifier::numeric(2).unwrap()
+}
+fn tid() -> Identifier {
+    Identifier::numeric(4).unwrap()
+}
+fn g1() -> Identifier {
+    Identifier::numeric(6).unwrap()
 }
 
 fn one() -> Identifier {
@@ -127,7 +138,7 @@ impl GWorld {
         let expected: BTreeSet<u32> = self.members.iter().filter(|m| m.joined && m.client.is_some()).map(|m| m.id).collect();
         let mut tries = 0;
         let gd = loop {
-            let gd = timed("get_group", self.ctl.get_consumer_group(&one(), &one(), &one())).await?;
+            let gd = timed("get_group", self.ctl.get_consumer_group(&sid(), &tid(), &g1())).await?;
             let gd = match gd {
                 Ok(Some(g)) => g,
                 other => return Err(Stop::Inconclusive(format!("get_consumer_group: {other:?}"))),
@@ -186,7 +197,7 @@ impl GWorld {
         // the other group on the same topic is not disturbed by any of this: one member, all partitions
         if self.by.is_some() {
             self.eval("C08:exclusive-and-complete");
-            let g2 = match timed("get_group", self.ctl.get_consumer_group(&one(), &one(), &two())).await? {
+            let g2 = match timed("get_group", self.ctl.get_consumer_group(&sid(), &tid(), &two())).await? {
                 Ok(Some(g)) => g,
                 other => return Err(Stop::Inconclusive(format!("get_consumer_group 2: {other:?}"))),
             };
@@ -206,7 +217,7 @@ impl GWorld {
     async fn bystander_poll(&mut self, count: u32) -> R<()> {
         let Some(by) = self.by.as_ref() else { return Ok(()) };
         let who = Consumer::group(two());
-        let r = timed("poll", by.poll_messages(&one(), &one(), None, &who, &PollingStrategy::next(), count, true)).await?;
+        let r = timed("poll", by.poll_messages(&sid(), &tid(), None, &who, &PollingStrategy::next(), count, true)).await?;
         let pm = match r {
             Ok(p) => p,
             Err(e) => return Err(gv(self, "valid-refused", "poll", json!({"second_group": true, "error": e.to_string()}))),
@@ -256,7 +267,7 @@ impl GWorld {
                 if self.members[c].client.is_none() {
                     return Ok(());
                 }
-                let r = timed("join", self.members[c].client.as_ref().unwrap().join_consumer_group(&one(), &one(), &one())).await?;
+                let r = timed("join", self.members[c].client.as_ref().unwrap().join_consumer_group(&sid(), &tid(), &g1())).await?;
                 if let Err(e) = r {
                     return Err(gv(self, "valid-refused", "join", json!({"error": e.to_string()})));
                 }
@@ -269,7 +280,7 @@ impl GWorld {
                 if self.members[c].client.is_none() || !self.members[c].joined {
                     return Ok(());
                 }
-                let r = timed("leave", self.members[c].client.as_ref().unwrap().leave_consumer_group(&one(), &one(), &one())).await?;
+                let r = timed("leave", self.members[c].client.as_ref().unwrap().leave_consumer_group(&sid(), &tid(), &g1())).await?;
                 if let Err(e) = r {
                     return Err(gv(self, "valid-refused", "leave", json!({"error": e.to_string()})));
                 }
@@ -303,7 +314,7 @@ impl GWorld {
                 if self.parts + n > 10 {
                     return Ok(());
                 }
-                let r = timed("create_partitions", self.ctl.create_partitions(&one(), &one(), n)).await?;
+                let r = timed("create_partitions", self.ctl.create_partitions(&sid(), &tid(), n)).await?;
                 if let Err(e) = r {
                     return Err(gv(self, "valid-refused", "create_partitions", json!({"error": e.to_string()})));
                 }
@@ -322,7 +333,7 @@ impl GWorld {
                 if n == 0 {
                     return Ok(());
                 }
-                let r = timed("delete_partitions", self.ctl.delete_partitions(&one(), &one(), n)).await?;
+                let r = timed("delete_partitions", self.ctl.delete_partitions(&sid(), &tid(), n)).await?;
                 if let Err(e) = r {
                     return Err(gv(self, "valid-refused", "delete_partitions", json!({"error": e.to_string()})));
                 }
@@ -346,7 +357,7 @@ impl GWorld {
                     pls.push(p.clone());
                     msgs.push(Message::new(Some(((self.hist as u128) << 64) | ((self.seq as u128) << 20) | (i as u128 + 1)), p, None));
                 }
-                let r = timed("send", self.ctl.send_messages(&one(), &one(), &Partitioning::partition_id(part), &mut msgs)).await?;
+                let r = timed("send", self.ctl.send_messages(&sid(), &tid(), &Partitioning::partition_id(part), &mut msgs)).await?;
                 if let Err(e) = r {
                     return Err(gv(self, "valid-refused", "send", json!({"error": e.to_string(), "partition": part})));
                 }
@@ -363,8 +374,8 @@ impl GWorld {
         if self.members[c].client.is_none() || !self.members[c].joined {
             return Ok(());
         }
-        let who = Consumer::group(one());
-        let r = timed("poll", self.members[c].client.as_ref().unwrap().poll_messages(&one(), &one(), None, &who, &PollingStrategy::next(), count, true)).await?;
+        let who = Consumer::group(g1());
+        let r = timed("poll", self.members[c].client.as_ref().unwrap().poll_messages(&sid(), &tid(), None, &who, &PollingStrategy::next(), count, true)).await?;
         self.judge_poll(c, count, r)
     }
 
@@ -374,8 +385,8 @@ impl GWorld {
         if joined.len() < 2 {
             return Ok(());
         }
-        let who = Consumer::group(one());
-        let (s, t) = (one(), one());
+        let who = Consumer::group(g1());
+        let (s, t) = (sid(), tid());
         let strat = PollingStrategy::next();
         let futs = joined.iter().map(|c| {
             let cl = self.members[*c].client.as_ref().unwrap();
@@ -539,19 +550,19 @@ async fn history(hseed: u64, cache: CacheMode, replay_ops: Option<(u32, usize, V
     };
     let res: R<()> = async {
         timed("login", w.ctl.login_user("iggy", "iggy")).await?.map_err(|e| Stop::Inconclusive(e.to_string()))?;
-        timed("create_stream", w.ctl.create_stream("gstream", Some(1))).await?.map_err(|e| Stop::Inconclusive(e.to_string()))?;
-        timed("create_topic", w.ctl.create_topic(&one(), "gtopic", parts, CompressionAlgorithm::None, None, Some(1), IggyExpiry::NeverExpire, MaxTopicSize::Unlimited))
+        timed("create_stream", w.ctl.create_stream("gstream", Some(2))).await?.map_err(|e| Stop::Inconclusive(e.to_string()))?;
+        timed("create_topic", w.ctl.create_topic(&sid(), "gtopic", parts, CompressionAlgorithm::None, None, Some(4), IggyExpiry::NeverExpire, MaxTopicSize::Unlimited))
             .await?
             .map_err(|e| Stop::Inconclusive(e.to_string()))?;
-        timed("create_group", w.ctl.create_consumer_group(&one(), &one(), "ggroup", Some(1))).await?.map_err(|e| Stop::Inconclusive(e.to_string()))?;
+        timed("create_group", w.ctl.create_consumer_group(&sid(), &tid(), "ggroup", Some(6))).await?.map_err(|e| Stop::Inconclusive(e.to_string()))?;
         for c in 0..nmem {
             w.connect_member(c).await?;
         }
-        timed("create_group", w.ctl.create_consumer_group(&one(), &one(), "bystanders", Some(2))).await?.map_err(|e| Stop::Inconclusive(e.to_string()))?;
+        timed("create_group", w.ctl.create_consumer_group(&sid(), &tid(), "bystanders", Some(7))).await?.map_err(|e| Stop::Inconclusive(e.to_string()))?;
         let by = RawClient::connect(w.inst.tcp_addr).await.map_err(Stop::Inconclusive)?;
         timed("login", by.login_user("iggy", "iggy")).await?.map_err(|e| Stop::Inconclusive(e.to_string()))?;
         w.by_id = timed("get_me", by.get_me()).await?.map_err(|e| Stop::Inconclusive(e.to_string()))?.client_id;
-        timed("join", by.join_consumer_group(&one(), &one(), &two())).await?.map_err(|e| Stop::Inconclusive(e.to_string()))?;
+        timed("join", by.join_consumer_group(&sid(), &tid(), &two())).await?.map_err(|e| Stop::Inconclusive(e.to_string()))?;
         w.by = Some(by);
         match replay_ops {
             Some((_, _, ops)) => {
